@@ -7,6 +7,9 @@ ids = [p["id"] for p in props]
 
 # id -> (category, technique, text, note, design_ref)
 claimed = {
+ "C04": ("fault_enumeration", "exhaustive fault-point enumeration over recorded handshakes (nd explorer) + exhaustive interleaving exploration of cancellation on a controlled scheduler (vs, preemption-bounded)",
+         "10 handshakes (plain, SASL+bind, WebSocket, component, failing voluntary features, both roles, STARTTLS+SASL+bind over a real TLS peer): peer stream cut after every byte N (inside TLS records too), every read index failing, every write index failing or short; constructor must return a printable non-nil error, not ready, no panic; step errors never swallowed. Cancellation: 3 plaintext handshakes on an in-memory net.Conn with deadlines (unbounded and 48-byte pipes, so writes can block), canceller thread placed at every instant, library's deadline goroutine managed, all interleavings with <=2 (quick) / <=3 (thorough) preemptions; deadlock of the establishing call after cancellation = violation.",
+         "Trusted: scripted peers send exactly the needed bytes; TLS byte layout reproducible (asserted); the controlled scheduler explores sequentially consistent interleavings at synchronisation operations and connection I/O (source rewritten at check time, nothing committed to /repo); crypto/tls is not instrumented, so cancellation is explored on the plaintext handshakes.", "6/C04"),
  "C02": ("model_checking", "exhaustive peer-script x client-configuration enumeration (nd explorer) with a real crypto/tls peer run in lock-step",
          "7 first features lists x 10 answers to the STARTTLS request (incl. pipelined fake plaintext features, plaintext after proceed, failure, garbage) x explicit/default TLS config x tee none/in/out/both x other features, plus histories of 2-3 sessions (own domain = or != the host the stream is opened to) sharing one StartTLS(nil) value. Oracle: only header + STARTTLS request precede the first TLS record; outcome is an error or a ready session with Secure bit, TLS connection state and completed handshake; pre-TLS plaintext is never acted upon; SNI = the session's own domain; tee changes neither cleartext bytes, outcome nor protected bytes (differential run).",
          "Trusted: crypto/tls as the TLS peer (in-process certificate); TLS records recognised by header bytes. With the default client config the handshake stops at certificate verification, after the server name has been observed.", "6/C02"),
@@ -76,6 +79,7 @@ m = {
  },
  "engines": [
    {"name": "nd", "path": "/verif/engine/nd", "serves_properties": sorted(claimed), "kind_free_text": "stateless exhaustive explorer (depth-first re-execution over choice vectors, deviation-bounded), sharded over worker processes"},
+   {"name": "vs", "path": "/verif/engine/vs", "serves_properties": [p for p in ["C04","C05","C06","C10","C15","C18"] if p in claimed], "kind_free_text": "controlled cooperative scheduler for real goroutines (one runs at a time; every lock, channel operation, select, connection read/write is a scheduling point chosen through nd; modelled enabledness; deadlock/horizon/panic outcomes), fed by cmd-line instrumenter engine/vinstr (go/packages + AST rewrite to a go build -overlay)"},
  ],
  "checks": checks,
  "not_applicable": [{"property_id": i, "reason": na.get(i, "check not built yet in this revision (planned, see DESIGN.md section 6); not claimed until its harness exists and has reported a seeded mutation")} for i in ids if i not in claimed],
